@@ -1931,6 +1931,9 @@ def r114(ctx, repo, setitem, mc, ml):
         ("imaging", "Flash Device", "False"),
         ("online_filter", "Area_um,Deform Soft Limit", "False"),
         ("online_filter", "target event count", "500"),
+        ("setup", "Module Composition", "Cell_Flow_2, Fluor"),
+        ("setup", "software version", "ShapeIn 2,0,6 | dclab 0.1"),
+        ("experiment", "time", "12:00:01,5"),
     ]
     lines = ["# model file\n"]
     cur = None
@@ -2264,6 +2267,92 @@ def r114_copies(ctx, repo):
            "stripped, parent untouched)" if not problems else
            "RTDC_Hierarchy._create_config: " + "; ".join(problems), node=cc,
            key=f"{HIER}::RTDC_Hierarchy._create_config::types preserved")
+    # (1b) RTDC_Hierarchy._update_config refreshes the child's sections in
+    # place (through the validating dictionaries), it never swaps a section
+    # for an unvalidated mapping
+    uc = repo.func(HIER, "RTDC_Hierarchy._update_config", missing_ok=True)
+    if uc is not None:
+        log = []
+
+        class Sec:
+            model_object = True
+
+            def __init__(self, name, data):
+                self.name, self.store = name, dict(data)
+
+            def model_setitem(self, k, v):
+                log.append(("set", self.name, k))
+                self.store[k] = v
+
+            def update(self, other=(), **kw):
+                for k, v in dict(other, **kw).items():
+                    self.model_setitem(k, v)
+
+            def clear(self):
+                log.append(("clear", self.name))
+                self.store.clear()
+
+            def pop(self, k, *a):
+                return self.store.pop(k, *a)
+
+            def __contains__(self, k):
+                return k in self.store
+
+            def __getitem__(self, k):
+                return self.store[k]
+
+        class ChildCfg:
+            model_object = True
+
+            def __init__(self):
+                self.secs = {"experiment": Sec("experiment", {}),
+                             "calculation": Sec("calculation",
+                                                {"stale key": 1})}
+
+            def __getitem__(self, sec):
+                return self.secs.setdefault(sec, Sec(sec, {}))
+
+            def __contains__(self, sec):
+                return sec in self.secs
+
+            def model_setitem(self, sec, value):
+                log.append(("replace", sec, type(value).__name__))
+                self.secs[sec] = value if isinstance(value, Sec) else Sec(
+                    sec, dict(value))
+        child = ChildCfg()
+        pconf = {"calculation": {"emodulus lut": "LE-2D-FEM-19",
+                                 "emodulus temperature": 23.0},
+                 "setup": {"channel width": 20.0}}
+        g2 = _env(repo, interp, HIER,
+                  np=Namespace("np", sum=lambda a: 3))
+        me2 = Namespace("self", config=child, hparent=Namespace(
+            "hparent", config=pconf, filter=Namespace("filter", all=[1])))
+        problems = []
+        try:
+            interp.steps = 0
+            Func(uc, g2, interp)(me2)
+        except ModelRaise as e:
+            problems.append(f"raises {e.name}")
+        repl = [x for x in log if x[0] == "replace"]
+        if repl:
+            problems.append(
+                f"replaces the child's [{repl[0][1]}] section by a "
+                f"{repl[0][2]}: later assignments on the child skip "
+                "conversion, lower-casing and the rejection of unknown keys")
+        calc = child.secs["calculation"].store
+        if not problems and calc != pconf["calculation"]:
+            problems.append(f"child [calculation] is {calc}, the parent has "
+                            f"{pconf['calculation']}")
+        if not problems and child.secs["experiment"].store.get(
+                "event count") != 3:
+            problems.append("event count not refreshed")
+        ctx.ob("R11.4", not problems, "the hierarchy child's sections are "
+               "refreshed in place through the validating dictionaries"
+               if not problems else "RTDC_Hierarchy._update_config: "
+               + "; ".join(problems), node=uc,
+               key=f"{HIER}::RTDC_Hierarchy._update_config::refresh in "
+               "place")
+
     # (2) whole package: no Configuration is built from a text form
     n = 0
     for rel in repo.files("dclab/"):
@@ -3210,4 +3299,23 @@ MUTANTS = list(MUTANTS) + [
        "                value = value.decode(\"utf-8\")\n"
        "            yield f\"{sec}:{ck}\", value\n\n\n"
        "class RTDCWriter:\n")], "R11.4"),
+]
+
+# round-6 seeded changes
+MUTANTS = list(MUTANTS) + [
+    ("file values of known keys get a decimal-comma replacement", CONF,
+     ("                convfunc = dfn.get_config_value_func(sec, var)\n"
+      "                val = convfunc(val)\n",
+      "                convfunc = dfn.get_config_value_func(sec, var)\n"
+      "                if not val.startswith(\"[\"):\n"
+      "                    val = val.replace(\",\", \".\")\n"
+      "                val = convfunc(val)\n"), "R11.4"),
+    ("hierarchy child section replaced by a plain dict", HIER,
+     ('            self.config["calculation"].clear()\n'
+      '            self.config["calculation"].update(\n'
+      '                self.hparent.config["calculation"])',
+      '            self.config["calculation"] = dict(\n'
+      '                self.hparent.config["calculation"])'), "R11.4"),
+    ("hierarchy child keeps stale calculation entries", HIER,
+     ('            self.config["calculation"].clear()\n', ""), "R11.4"),
 ]
